@@ -181,10 +181,10 @@ def targeted_programs():
     # a trough served by several tips with ONE scalar volume: every tip takes that volume from the same real well
     lw3 = [gen.mk_plate("plate", 8, 3, 0, 3000, [1500] * 24), gen.mk_trough("trough", 8, 2, 100, 5000, [1000, 4950])]
     h = gen.header("evo/trough-scalar-volume", "evo", Fraction(1), 950, lw3, flags={"comp": False, "norm": False})
-    h["ops"] = [{"op": "evo_aspirate", "lw": 1, "wells": W([0, 1, 2, 3], 0), "tips": T([1, 2, 3, 4]), "vols": {"k": "s", "x": 200}, "lc": "T", "label": "4 x 200 leaves 200"},
+    h["ops"] = [{"op": "evo_aspirate", "lw": 1, "wells": W(list(range(8)), 0), "tips": T(list(range(1, 9))), "vols": {"k": "s", "x": 200}, "lc": "T", "label": "8 x 200 > 1000 - 100 (four tips are booked, then the fifth fails)"},
                 {"op": "evo_dispense", "lw": 1, "wells": W([2, 5], 1), "tips": T([3, 6]), "vols": {"k": "s", "x": 25}, "lc": "W\u00e4ssrig 20\u00b5l", "label": "2 x 25 fits exactly"},
-                {"op": "evo_aspirate", "lw": 1, "wells": W(list(range(8)), 0), "tips": T(list(range(1, 9))), "vols": {"k": "s", "x": 20}, "lc": "T", "label": "8 x 20 > 200 - 100"},
-                {"op": "evo_aspirate", "lw": 1, "wells": W([0, 1], 0), "tips": T([1, 2]), "vols": {"k": "l", "x": [10]}, "lc": "T", "label": "a one-element list is one volume for every tip"},
+                {"op": "evo_aspirate", "lw": 1, "wells": W([0, 1], 0), "tips": T([1, 2]), "vols": {"k": "s", "x": 50}, "lc": "T", "label": "2 x 50: 200 - 100 = 100"},
+                {"op": "evo_aspirate", "lw": 1, "wells": W([0, 1, 2], 0), "tips": T([1, 2, 3]), "vols": {"k": "s", "x": 1}, "lc": "T", "label": "nothing can be taken any more"},
                 {"op": "evo_dispense", "lw": 1, "wells": W([2, 5, 7], 1), "tips": T([3, 6, 8]), "vols": {"k": "s", "x": 20}, "lc": "T", "label": "3 x 20 > 5000 - 5000"}]
     progs.append(h)
     # deck positions at the limits of their ranges (grid 1..67, site 1..128), both arms, a trough served by all eight tips
